@@ -481,7 +481,7 @@ pub fn probes() -> Vec<Ctor> {
         ncoefs: [0, 1, 7, 9, 24, 32, 33, 64],
         shift: [-128, -16, -1, 0, 14, 15, 16, 31, 32, 127],
         precision: [0, 1, 2, 14, 15, 16, 17, 255, BIG + 8],
-        coef: [0, -1, 127, -128, 255, i16::MAX, i16::MIN],
+        coef: [0, -1, 127, -128, 128, -129, 1, 2, -2, -3, 16383, 16384, -16384, 255, i16::MAX, i16::MIN],
     );
     v.extend(two_deviations(&Q { order: 8, ncoefs: 8, shift: 5, precision: 8, coef: 3 }, &qs).into_iter().map(|q| Ctor::QuantizedParameters { order: q.order, ncoefs: q.ncoefs, shift: q.shift, precision: q.precision, coef: q.coef }));
     // Constant / Verbatim
@@ -535,7 +535,7 @@ pub fn probes() -> Vec<Ctor> {
         n: u64,
     }
     let hs = setters!(H;
-        bs: [0, 1, 15, 16, 191, 193, 256, 257, 576, 4608, 32767, 32768, 65535, 65536, BIG + 192, usize::MAX],
+        bs: [0, 1, 15, 16, 191, 193, 256, 257, 512, 576, 1152, 2304, 4608, 9216, 18432, 8192, 16384, 32767, 32768, 65535, 65536, BIG + 192, usize::MAX],
         assignment: [0, 1, 8, 9, 16, 255, 256, 257, 258],
         bps: [0, 7, 8, 12, 20, 24, 25, 32, 33, 256 + 16, BIG + 16],
         rate: [0, 1, 255, 256, 65535, 65536, 95999, 96000, 96001, 176400, 192000, 655350, 655351, 1 << 20, BIG + 44100, usize::MAX],
